@@ -18,8 +18,37 @@ enum Fn
     JOIN = 3,
     JOIN_INT = 4,
     PADDED = 5,
-    FN_COUNT = 6
+    JOIN_ROWS = 6, // elements whose own operator<< joins their cells
+    FN_COUNT = 7
 };
+
+// a row prints itself by joining its cells: two join calls are alive at the same time
+struct Row
+{
+    std::vector<std::string> cells;
+};
+static std::ostream& operator<<(std::ostream& o, const Row& r)
+{
+    return o << nitro::lang::join(r.cells, ",");
+}
+// the cells of a row are spelled "cell|cell|cell" in the case
+static Row row_of(const std::string& text)
+{
+    Row r;
+    std::string cur;
+    for (char ch : text)
+    {
+        if (ch == '|')
+        {
+            r.cells.push_back(cur);
+            cur.clear();
+        }
+        else
+            cur += ch;
+    }
+    r.cells.push_back(cur);
+    return r;
+}
 
 struct Case
 {
@@ -51,7 +80,7 @@ const char* property_ids()
 static const char* fn_name(int fn)
 {
     static const char* n[] = { "split", "replace_all", "starts_with", "join", "join<int>",
-                               "format_padded" };
+                               "format_padded", "join<row>" };
     return n[fn];
 }
 
@@ -69,6 +98,7 @@ std::string describe(const Case& c)
         o << vf::vis(c.s) << ", " << vf::vis(c.t) << ", " << vf::vis(c.u);
         break;
     case JOIN:
+    case JOIN_ROWS:
         o << "[";
         for (std::size_t i = 0; i < c.list.size(); ++i)
             o << (i ? ", " : "") << vf::vis(c.list[i]);
@@ -97,7 +127,10 @@ static std::string gen_string(vf::Src& src, const std::string& mode, int maxlen)
         // random: richer alphabet, occasionally long
         static const std::vector<std::string> chunks = { "a",  "b",      "#",  " ",    "ab",
                                                          "ba", "\xc3\xa4", "##", "a b ", "\t",
-                                                         ",",  ", ",     "{}", "\n" };
+                                                         ",",  ", ",     "{}", "\n",   std::string(1, '\0'),
+                                                         "$",  "$&",     "$$", "$1",   "\\",
+                                                         ".",  "*",      "(",  "$`",   "$'",
+                                                         "\xff", "[",    "a",  "b",    "#" };
         int n = src.coin(10) ? src.irange(0, 40) : src.irange(0, maxlen);
         std::string r;
         for (int i = 0; i < n; ++i)
@@ -112,7 +145,7 @@ Case generate(vf::Src& src, const std::string& mode)
     Case c;
     if (mode == "rc" || mode == "fuzz")
     {
-        c.fn = static_cast<int>(src.weighted({ 25, 30, 10, 25, 3, 7 }));
+        c.fn = static_cast<int>(src.weighted({ 25, 30, 12, 22, 3, 7, 6 }));
         switch (c.fn)
         {
         case SPLIT:
@@ -161,7 +194,7 @@ Case generate(vf::Src& src, const std::string& mode)
                 c.t = c.s.substr(src.index(c.s.size())); // a suffix: occurs, but not at 0
             else
                 c.t = gen_string(src, mode, 4);
-            if (src.coin(15))
+            if (src.coin(25))
                 c.t += gen_string(src, mode, 2);
             break;
         case JOIN:
@@ -172,6 +205,22 @@ Case generate(vf::Src& src, const std::string& mode)
             for (int i = 0; i < n; ++i)
                 c.list.push_back(src.coin(80) ? src.pick(el) : gen_string(src, mode, 4));
             static const std::vector<std::string> inf = { " ", "", ",", ", ", " cruel ", ";" };
+            c.t = src.pick(inf);
+            break;
+        }
+        case JOIN_ROWS:
+        {
+            int n = src.irange(0, 5);
+            static const std::vector<std::string> cell = { "", "a", "b", "c ", "x y", " " };
+            for (int i = 0; i < n; ++i)
+            {
+                std::string row;
+                int k = src.irange(1, 4);
+                for (int j = 0; j < k; ++j)
+                    row += (j ? "|" : "") + src.pick(cell);
+                c.list.push_back(row);
+            }
+            static const std::vector<std::string> inf = { ";", " ", "", ", " };
             c.t = src.pick(inf);
             break;
         }
@@ -205,20 +254,28 @@ Case generate(vf::Src& src, const std::string& mode)
 
     // exhaustive sub-spaces: mode = "ex<L>" with haystack length bound L
     int L = 7;
-    if (mode.size() > 2 && mode.compare(0, 2, "ex") == 0)
+    // "exz<L>": the alphabet {a, NUL, $} instead of {a, b} (bytes that C string functions and
+    // pattern languages treat specially; std::string does not)
+    std::string alphabet = "ab";
+    if (mode.size() > 3 && mode.compare(0, 3, "exz") == 0)
+    {
+        L = std::atoi(mode.c_str() + 3);
+        alphabet = std::string("a\0$", 3);
+    }
+    else if (mode.size() > 2 && mode.compare(0, 2, "ex") == 0)
         L = std::atoi(mode.c_str() + 2);
     c.fn = src.irange(0, 3);
     switch (c.fn)
     {
     case SPLIT:
     case STARTS:
-        c.s = src.str("ab", 0, L);
-        c.t = src.str("ab", 0, 3);
+        c.s = src.str(alphabet, 0, L);
+        c.t = src.str(alphabet, 0, 3);
         break;
     case REPLACE:
-        c.s = src.str("ab", 0, L);
-        c.t = src.str("ab", 0, 3);
-        c.u = src.str("ab", 0, 2);
+        c.s = src.str(alphabet, 0, L);
+        c.t = src.str(alphabet, 0, 3);
+        c.u = src.str(alphabet, 0, 2);
         break;
     case JOIN:
     {
@@ -443,6 +500,38 @@ std::string check(const Case& c, vf::Ctx& ctx)
             return "join: vector and iterator overloads differ";
         if (got != want)
             return "join gives " + vf::vis(got) + ", expected " + vf::vis(want);
+        return "";
+    }
+    case JOIN_ROWS:
+    {
+        // reference: every row rendered on its own (non-empty cells, comma separated), then the
+        // non-empty renderings separated by the infix
+        std::vector<Row> rows;
+        std::string want;
+        bool first = true;
+        for (auto& text : c.list)
+        {
+            rows.push_back(row_of(text));
+            std::string r;
+            bool f2 = true;
+            for (auto& cell : rows.back().cells)
+            {
+                if (cell.empty())
+                    continue;
+                r += (f2 ? "" : ",") + cell;
+                f2 = false;
+            }
+            if (r.empty())
+                continue;
+            want += (first ? "" : c.t) + r;
+            first = false;
+        }
+        if (rows.size() >= 2)
+            ctx.mark_nontrivial();
+        ctx.tag("join:element-joins-its-own-parts");
+        std::string got = nitro::lang::join(rows.begin(), rows.end(), c.t);
+        if (got != want)
+            return "join of rows that join their own cells gives " + vf::vis(got) + ", expected " + vf::vis(want);
         return "";
     }
     case JOIN_INT:
